@@ -237,6 +237,21 @@ def setop_programs(tier):
                    "opts": {"wrap_set_operation_queries": False}}
 
 
+def setop_embedded_programs(tier):
+    """a set operation (operands unwrapped, the only form SQLite reads) as a row source / IN operand of another statement"""
+    a = {"calls": [["from", ["t", "t"]], ["select", [A(f("t", "a"), "k")]], ["where", ["cmp", ">", f("t", "a"), raw(0)]]]}
+    b = {"calls": [["from", ["t", "u"]], ["select", [f("u", "x")]]]}
+    c = {"calls": [["from", ["t", "v"]], ["select", [f("v", "x")]], ["where", ["notnull", f("v", "x")]]]}
+    for o1 in ["union", "union_all", "intersect", "except_of"]:
+        for tail in ([], [[("union" if o1 != "union" else "intersect"), c]]):
+            so = {"calls": a["calls"] + [[o1, b]] + tail, "opts": {"wrap_set_operation_queries": False}}
+            yield {"calls": [["from", ["q", "so", so, "so"]], ["select", [f("so", "k")]], ["orderby", [f("so", "k")], "asc"]]}
+            yield {"calls": [["from", ["t", "t"]], ["select", [f("t", "id")]], ["where", ["insub", f("t", "b"), so]], ["orderby", [f("t", "id")], "asc"]]}
+            yield {"calls": [["from", ["t", "t"]], ["select", [f("t", "id")]], ["where", ["insub", f("t", "b"), so, "notin"]], ["orderby", [f("t", "id")], "asc"]]}
+            yield {"calls": [["from", ["t", "t"]], ["join", "inner", ["q", "so", so, "so"], ["on", ["cmp", "=", f("t", "b"), f("so", "k")]]],
+                             ["select", [f("t", "id"), f("so", "k")]], ["orderby", [f("t", "id")], "asc"]]}
+
+
 def dml_programs(tier):
     T = ["t", "t"]
     rowsets = [[[raw(9), raw(1), raw(2), raw("n")]], [[raw(9), raw(1), raw(2), raw("n")], [raw(10), ["null"], raw(0), raw("")]],
@@ -245,6 +260,9 @@ def dml_programs(tier):
     for rows in rowsets:
         yield {"calls": [["into", T], ["insert_rows", rows]]}
         yield {"calls": [["into", T], ["columns", ["id", "a", "b", "s"]], ["insert_rows", rows]]}
+        # the rows given as lists instead of tuples
+        yield {"calls": [["into", T], ["insert_rows", rows, "list"]]}
+        yield {"calls": [["into", T], ["columns", ["id", "a", "b", "s"]], ["insert_rows", rows, "list"], ["on_conflict", ["id"]], ["do_update", "a", raw(9)]]}
         for conf in ([["on_conflict", ["id"]], ["do_nothing"]],
                      [["on_conflict", ["id"]], ["do_update", "a", raw(9)]],
                      [["on_conflict", ["id"]], ["do_update", "a", ["arith", "+", f("t", "a"), raw(1)]], ["do_update", "b", None]],
@@ -275,12 +293,49 @@ def chunks(tier, seed):
     out = [{"gen": "select", "part": i, "of": 64, "tier": tier} for i in range(64)]
     out += [{"gen": "setop", "part": 0, "of": 1, "tier": tier}, {"gen": "dml", "part": 0, "of": 1, "tier": tier}]
     out += [{"gen": "struct", "part": i, "of": 4, "tier": tier} for i in range(4)]
+    out += [{"gen": "kwalias", "part": i, "of": 4, "tier": tier} for i in range(4)]
+    out.append({"gen": "setop_embedded", "part": 0, "of": 1, "tier": tier})
     out.append({"gen": "equiv"})
     out += [{"gen": "expr", "part": i, "of": 16, "tier": tier} for i in range(16)]
     return out
 
 
 _P = {}
+
+
+def _kw_twin(p):
+    """the same program with every alias of a function / aggregate / window term handed to the constructor (alias=...)"""
+    hit = [False]
+
+    def walk(x):
+        if isinstance(x, list):
+            if len(x) == 3 and x[0] == "as" and isinstance(x[1], list) and x[1] and x[1][0] in ("func", "agg", "win", "coalesce"):
+                hit[0] = True
+                return ["as", walk(x[1]), x[2], "kw"]
+            return [walk(y) for y in x]
+        if isinstance(x, dict):
+            return {k_: walk(v_) for k_, v_ in x.items()}
+        return x
+
+    q = walk(p)
+    return q if hit[0] else None
+
+
+def kw_alias_programs(tier):
+    for g in ("select", "struct"):
+        if g not in GEN:
+            continue
+        n = 0
+        for p in GEN[g](tier):
+            q = _kw_twin(p)
+            if q is not None:
+                n += 1
+                if tier == "thorough" or g == "struct" or n % 7 == 0:
+                    yield q
+
+
+GEN["kwalias"] = kw_alias_programs
+GEN["setop_embedded"] = setop_embedded_programs
 
 
 def expand(chunk):
@@ -393,6 +448,19 @@ def check_equiv(res, sql, refsql, ordered, is_dml, sigbase, **detail):
         res.extra.setdefault("reference_rejected_msgs", set()).add(str(e2)[:60])
         return
     res.transitions += 2
+    if not is_dml and detail.get("program") is not None:
+        # a select item given an alias is a result column of that name (the names are not part of the bytecode)
+        names = _aliases_in(detail["program"])
+        try:
+            got_n = [d[0] for d in db.execute(sql).description]
+            want_n = [d[0] for d in db.execute(refsql).description]
+        except sqlite3.Error:
+            got_n = want_n = []
+        for i, (g_, w_) in enumerate(zip(got_n, want_n)):
+            if w_ in names and g_ != w_:
+                res.violate(sigbase + "|result-column-name", "result column %d is named %r; the select item was given the alias %r" % (i, g_, w_),
+                            sql=sql, reference=refsql, **detail)
+                return
     if bc == rbc:
         res.extra["identical_bytecode"] = res.extra.get("identical_bytecode", 0) + 1
         return
@@ -403,6 +471,23 @@ def check_equiv(res, sql, refsql, ordered, is_dml, sigbase, **detail):
         dbx, got, want = bad
         res.violate(sigbase + "|different-result", "rendered and reference statement give different results on a database",
                     sql=sql, reference=refsql, database=dbx, got=str(got)[:300], want=str(want)[:300], **detail)
+
+
+def _aliases_in(p):
+    out = set()
+
+    def walk(x):
+        if isinstance(x, list):
+            if len(x) >= 3 and x[0] == "as" and isinstance(x[2], str):
+                out.add(x[2])
+            for y in x:
+                walk(y)
+        elif isinstance(x, dict):
+            for y in x.values():
+                walk(y)
+
+    walk(p)
+    return out
 
 
 def clause_sig(p):
